@@ -39,7 +39,14 @@ def fields_of(out):
 
 
 # ----------------------------------------------------------------------------- one batch: impl, model, oracle
+def _dumpable(line):
+    """cover-tree cases whose tree the driver can read back exactly (integer distances): the real tree is dumped,
+    certificate-checked (wfTree) and the Lean model of the batch query is run on it"""
+    return " method=covertree " in line and " sh=" not in line and " metric=L2 " not in line
+
+
 def _run_chunk(ctx, binary, lines, brief):
+    lines = [l + " dump=1" if _dumpable(l) and len(l) < 6000 else l for l in lines]
     impl = ctx.run_impl_cases(binary, lines, timeout=1800)
     dl = []
     for l, io in zip(lines, impl):
@@ -50,6 +57,8 @@ def _run_chunk(ctx, binary, lines, brief):
             extra = " ids=%s" % f.get("ids", "")
             if "raw" in f:
                 extra += " raw=%s" % f["raw"]
+            if "tree" in f:
+                extra += " tree=%s" % f["tree"]
             dl.append(l + extra + (" brief=1" if brief else ""))
     rc, model, err = ctx.run_model("model_c02", dl, timeout=3000)
     return impl, rc, model, err
@@ -109,8 +118,8 @@ def classify(c, io, mf):
                     % (i, reason, mf.get("cq"), mf.get("wrap")))
         if reason == "len" and i in alt:
             return ("fail", "knn-dup:%s" % method,
-                    "%s search returns k+1 neighbours for sample %s: at least k+1 other samples coincide with it, the query is "
-                    "not among the k+1 selected and nothing is dropped" % (method, i))
+                    "%s search returns a list whose length is not k for sample %s, which coincides with at least k+1 other "
+                    "samples (F-KNN-DUP class: the query need not be among the k+1 selected)" % (method, i))
         return ("fail", "oracle:%s:%s" % (method, reason), "%s search result is not the exact k-NN (sample %s: %s)" % (method, i, reason))
     if mf.get("corr") != "ok":
         return ("broken", "corr:%s" % method, "model and implementation disagree at the observation level (%s) although the "
@@ -118,6 +127,13 @@ def classify(c, io, mf):
     if method == "covertree" and mf.get("cq") != "ok":
         return ("broken", "cover-query-certificate", "cover-tree query returned a candidate set different from {j | d(i,j) <= k-th} (%s)"
                 % mf.get("cq"))
+    if method == "covertree" and mf.get("wf") not in (None, "1"):
+        return ("broken", "cover-tree-wf-certificate", "the cover tree built by batch_create is not well formed (wf=%s): first child "
+                "carrying the parent's point / true parent distances / max_dist bounding all descendants / every sample once "
+                "— the hypothesis of cover_query_exact" % mf.get("wf"))
+    if method == "covertree" and mf.get("mq") not in (None, "ok"):
+        return ("broken", "corr:cover-query", "Lean model of the batch query run on the real tree returns candidate sets different "
+                "from the real query (%s)" % mf.get("mq"))
     if method == "covertree" and mf.get("queries") != "ok":
         return ("broken", "cover-query-results", "cover-tree batch query did not return one result per sample")
     return None
@@ -165,6 +181,9 @@ def judge(ctx, binary, cases, label, brief=False):
             ctx.stat("cases-with-coincident-samples(>=k+1)")
         if mf.get("ties") not in (None, "0"):
             ctx.stat("cover-cases-with-boundary-ties")
+        if "wf" in mf:
+            ctx.stat("cover-trees-certified(wfTree)+model-query-run")
+            ctx.stat("fidelity:cover-query-order-" + mf.get("mqorder", "?"))
         v = classify(c, io, mf)
         if v is None:
             ctx.stat("agree")
